@@ -122,7 +122,7 @@ func Minify(inputs []InputFile, cfg *Config) (*Result, error) {
 
 	perFile, pkgExports := scanInputSymbols(files, cfg)
 	for i := range files {
-		fileCfg := mergeAnalysisConfig(cfg.Analysis, files[i].path, perFile, pkgExports)
+		fileCfg := mergeAnalysisConfig(cfg.Analysis, files[i].path, files, perFile, pkgExports)
 		files[i].analysis = analysis.Analyze(files[i].exprs, fileCfg)
 	}
 
@@ -213,7 +213,7 @@ func parseFile(input InputFile) (parsedFile, error) {
 	}, nil
 }
 
-func mergeAnalysisConfig(base *analysis.Config, filename string, perFile map[string]fileSymbols, pkgExports map[string][]analysis.ExternalSymbol) *analysis.Config {
+func mergeAnalysisConfig(base *analysis.Config, filename string, files []parsedFile, perFile map[string]fileSymbols, pkgExports map[string][]analysis.ExternalSymbol) *analysis.Config {
 	cfg := &analysis.Config{Filename: filename}
 	if base != nil {
 		cfg.ExtraGlobals = append(cfg.ExtraGlobals, base.ExtraGlobals...)
@@ -230,10 +230,15 @@ func mergeAnalysisConfig(base *analysis.Config, filename string, perFile map[str
 	if symbols, ok := perFile[filename]; ok && len(symbols.packages) > 0 {
 		currentPackages = symbols.packages
 	}
-	for path, symbols := range perFile {
+	// The other files' globals are added in the order the files were given:
+	// when two files define one name the later definition is the one a
+	// third file reaches at run time, and it is the one that wins here.
+	for _, file := range files {
+		path := file.path
 		if path == filename {
 			continue
 		}
+		symbols := perFile[path]
 		for _, sym := range symbols.globals {
 			if currentPackages[sym.Package] {
 				cfg.ExtraGlobals = append(cfg.ExtraGlobals, sym)
@@ -319,7 +324,13 @@ func scanProgramSymbols(exprs []*lisp.LVal, cfg *Config) ([]analysis.ExternalSym
 
 	globals := make([]analysis.ExternalSymbol, 0, len(defs))
 	pkgExports := make(map[string][]analysis.ExternalSymbol)
-	for key, sym := range defs {
+	keys := make([]string, 0, len(defs))
+	for key := range defs {
+		keys = append(keys, key)
+	}
+	sort.Strings(keys)
+	for _, key := range keys {
+		sym := defs[key]
 		globals = append(globals, sym)
 		pkg, name, _ := strings.Cut(key, "/")
 		if exported[pkg][name] {
